@@ -8,6 +8,13 @@ import Hw.Topo.RestrictLemmas
 import Hw.Topo.RenderLemmas
 import Hw.Topo.RestrictTyping
 import Hw.Topo.RestrictSide
+import Hw.Topo.RestrictWF
+import Hw.Topo.RestrictSurvive
+import Hw.Topo.RestrictMerge
+import Hw.Topo.RenderTop
+import Hw.Topo.RenderCounts
+import Hw.Topo.RenderCover
+import Hw.Topo.RenderSets
 import Hw.Attr.MemAttrsState
 namespace Hw.Props.C08
 open Hw.Topo Hw.Topo.Restrict Hw.Gen.Restrict
@@ -265,9 +272,11 @@ example : okT demoMerge.tree = true ∧ (restrict demoMerge ⟨1, false⟩ (flag
             special-list-links (here); no-children-where-forbidden (C08_render_no_children, needs PUs to be leaves); depth-by-type, depth-increases, in-its-level (incl. both cousin
             links), nobjs, levels-listed, level-entries-valid, levels-in-tree-order, normal-levels-nonempty, depth-le-objects,
             level0-is-root (for a Machine root) (C08_render_levels, which also needs the root to be a normal object).
-    NOT proved (still judged by the oracle wfCheck on every AFTER dump): children-counts (the mkAux fold),
-            and the topology-level clauses levels-cover-objects, normal-level-types, type-depth-inverse, level0-is-root, pu-level-deepest, numa-exists, root-is-machine,
-            machine-only-at-root; and every clause about sets / memory / attributes that is not a link (sets-presence,
+    Proved further below (A8): children-counts (C08_render_children_counts), root-is-machine and numa-exists (C08_render_top),
+    levels-cover-objects (C08_render_levels_cover), type-depth-inverse (C08_render_type_depth_inverse), machine-only-at-root
+    (C08_restrict_wf_partial).
+    NOT proved (still judged by the oracle wfCheck on every AFTER dump): the topology-level clauses
+            normal-level-types, pu-level-deepest; and every clause about sets / memory / attributes that is not a link (sets-presence,
             cpuset-is-disjoint-union-of-children, memory-child-shares-cpuset, memcache-nodeset, nodeset-decomposition,
             pu-allowed, numa-allowed, total-memory, cache-attrs, group-depth, siblings-ordered, *-unique, allowed-sets,
             not-filtered-out, type-in-range). -/
@@ -341,9 +350,10 @@ theorem C08_restrict_links (t : Topo) (flagsT : Nat) (s : CSet) (flags : Nat) (e
     objClause "special-list-links" (afterDump t flagsT s flags ex) (mkAux (afterDump t flagsT s flags ex)) o = true :=
   C08_render_links _ (typed_restrict t s flags ht hr).1 _ ex o ho
 
-/-- … the PU part of no-children-where-forbidden still needs "PUs are leaves" on the RESULT: level merging keeps it only
-    because hwloc_compare_levels_structure refuses to merge a level with memory children into the PU level, a level-wide guard
-    whose node-wise consequence is not proved (the driver evaluates puLeafT on every AFTER tree) -/
+/-- … the PU part of no-children-where-forbidden needs "PUs are leaves" on the RESULT: level merging keeps it only because
+    hwloc_compare_levels_structure refuses to merge a level with memory children into the PU level, a level-wide guard whose
+    node-wise consequence is proved in Hw.Topo.RestrictMerge (A8): see C08_restrict_wf_partial for the statement without this
+    hypothesis (the driver still evaluates puLeafT on every AFTER tree) -/
 theorem C08_restrict_no_children (t : Topo) (flagsT : Nat) (s : CSet) (flags : Nat) (ex : RObj → Extra)
     (ht : typedT t.tree = true) (hr : isNormal t.tree.obj.type = true) (hpu : puLeafT (restrict t s flags).1.tree = true)
     (o : Obj) (ho : o ∈ (afterDump t flagsT s flags ex).objs) :
@@ -466,6 +476,363 @@ example :
 
 end Side
 
+/-! ### A8: the hypotheses of the theorems above follow from well-formedness alone, and are preserved -/
+
+/-- (1) **the whole restrict model preserves the tree invariants the other theorems assume**: SetsOK (`okT`), the kind
+    discipline (`typedT`) and "the root is a normal object" — BYCPUSET and BYNODESET, every flag word, the tree recursion with
+    the re-attachment of Misc / I-O children, level merging (keep_structure) and the final re-sort.  Also along any history. -/
+theorem C08_restrict_preserves_typing (t : Topo) (s : CSet) (flags : Nat)
+    (hok : okT t.tree = true) (ht : typedT t.tree = true) (hr : isNormal t.tree.obj.type = true) :
+    okT (restrict t s flags).1.tree = true ∧ typedT (restrict t s flags).1.tree = true ∧
+    isNormal (restrict t s flags).1.tree.obj.type = true :=
+  ⟨ok_restrict t s flags hok, (typed_restrict t s flags ht hr).1, (typed_restrict t s flags ht hr).2⟩
+
+theorem C08_repeat_preserves_typing (t : Topo) (calls : List (CSet × Nat))
+    (hok : okT t.tree = true) (ht : typedT t.tree = true) (hr : isNormal t.tree.obj.type = true) :
+    okT (runCalls t calls).tree = true ∧ typedT (runCalls t calls).tree = true ∧ isNormal (runCalls t calls).tree.obj.type = true := by
+  induction calls generalizing t with
+  | nil => exact ⟨hok, ht, hr⟩
+  | cons c cs ih =>
+    unfold runCalls
+    rw [List.foldl_cons]
+    have := C08_restrict_preserves_typing t c.1 c.2 hok ht hr
+    exact ih _ this.1 this.2.1 this.2.2
+
+/-- (2) **WF implies the hypotheses**: for EVERY well-formed dump the tree the engine rebuilds from it (`treeOf`, the input of
+    the model on every call) satisfies SetsOK and the typing, and its root is the Machine object.  (`treeOf` fails only on a
+    dump whose objects are not listed parents-first, which is reported as MODEL-INPUT-ERROR.) -/
+theorem C08_wf_implies_okT (d : Dump) (h : WF d) (t : Tree) (ht : treeOf d = .ok t) :
+    okT t = true ∧ typedT t = true ∧ t.obj.type = tMACHINE ∧ isNormal t.obj.type = true ∧ puLeafT t = true ∧
+    puSetsT t = true ∧ numaSetsT t = true :=
+  wf_treeOf_full h t ht
+
+/-- (2) … the rebuilt tree lists every object of the dump exactly once, so gp_index is distinct over the tree and, when the PU
+    and Machine types are not filtered KEEP_STRUCTURE (hwloc_topology_set_type_filter refuses that), the topology is `mergeSafe`:
+    EVERY hypothesis of the theorems of this file follows from `WF d` and these two filter facts -/
+theorem C08_wf_mergeSafe (d : Dump) (h : WF d) (t : Tree) (ht : treeOf d = .ok t) (ac an : Nat)
+    (hf1 : filterOf d.filters tPU ≠ filterKeepStructure) (hf2 : filterOf d.filters tMACHINE ≠ filterKeepStructure) :
+    (objsT t).Perm (d.objs.map robjOf) ∧ machineOnce t ∧
+    mergeSafe { tree := t, allowedCpu := ac, allowedNode := an, filters := d.filters } :=
+  ⟨treeOf_perm h t ht, treeOf_machineOnce h t ht, treeOf_gp_nodup h t ht, hf1, by rw [(wf_treeOf h t ht).2.2.1]; exact hf2⟩
+
+/-- … hence the set, link and level theorems above (C08_sets_exact_whole, C08_restrict_links, C08_restrict_levels, C08_repeat_exact)
+    apply to every history of calls that starts from a well-formed topology, with no hypothesis besides `WF d` -/
+theorem C08_wf_restrict_typing (d : Dump) (h : WF d) (t : Tree) (ht : treeOf d = .ok t) (ac an : Nat) (calls : List (CSet × Nat)) :
+    let T := runCalls { tree := t, allowedCpu := ac, allowedNode := an, filters := d.filters } calls
+    okT T.tree = true ∧ typedT T.tree = true ∧ isNormal T.tree.obj.type = true := by
+  have := wf_treeOf h t ht
+  exact C08_repeat_preserves_typing _ calls this.1 this.2.1 this.2.2.2
+
+/-! ### A8: PU / NUMA survivors, exactly (hypotheses: consequences of WF, see C08_wf_implies_okT) -/
+
+/-- (3) **PUs after a successful restrict by cpuset S** (tree recursion, i.e. up to level merging): every PU of the result still
+    has cpuset = complete cpuset = {os_index} with os_index ∈ S, and for every PU identity `a` (gp_index, type, os_index,
+    attributes) the result holds exactly the previous PUs of that identity if `a.os_index ∈ S` and none otherwise: the PUs are
+    EXACTLY the previous PUs whose os_index is in S.  (Through level merging the statement is evaluated by the driver on the real
+    AFTER dump of every call; see C08_merge_keeps_pus for the proved part.) -/
+theorem C08_pus_exact (t : Topo) (s : CSet) (flags : Nat) (p : Params) (hp : plan t s flags = some p) (hb : p.byNode = false)
+    (t' : Topo) (hc : restrictCore t p = some t') (hok : okT t.tree = true) (hty : typedT t.tree = true)
+    (hleaf : puLeafT t.tree = true) (hsets : puSetsT t.tree = true) :
+    (∀ x ∈ objsT t'.tree, x.type = tPU → x.cpuset = osBit x ∧ x.ccpuset = osBit x ∧ s.mem x.osidx.toNat = true) ∧
+    (∀ a : RObj, a.type = tPU → cnt ident (ident a) (objsT t'.tree) =
+        if s.mem a.osidx.toNat = true then cnt ident (ident a) (objsT t.tree) else 0) :=
+  pus_exact_core t s flags p hp hb t' hc hok hty hleaf hsets
+
+/-- (3) **level merging never removes, duplicates or changes a non-normal object** (NUMA node, memory-side cache, I/O, Misc):
+    the non-normal objects of `keepStructure filters t` are exactly those of `t`, complete sets included, for every typed tree
+    and every filter table -/
+theorem C08_merge_keeps_nonnormal (filters : List Nat) (t : Tree) (h : typedT t = true) (hr : isNormal t.obj.type = true)
+    (x : RObj) (hx : isNormal x.type = false) :
+    (x ∈ objsT (keepStructure filters t) ↔ x ∈ objsT t) ∧
+    cnt ident (ident x) (objsT (keepStructure filters t)) = cnt ident (ident x) (objsT t) :=
+  ⟨keepStructure_nonnormal_mem filters t h hr x hx, cntEq_ident_keepStructure filters t h hr x hx⟩
+
+/-- (3) **NUMA nodes under a restrict by cpuset, whole call** (level merging included): a NUMA node disappears ONLY IF
+    REMOVE_CPULESS is given and it is CPU-less afterwards — every NUMA node for which that does not hold (`protNUMA`) is a NUMA
+    node of the result -/
+theorem C08_numa_survive (t : Topo) (s : CSet) (flags : Nat) (p : Params) (hp : plan t s flags = some p) (hb : p.byNode = false)
+    (hret : (restrict t s flags).2 = .ok) (hty : typedT t.tree = true) (hr : isNormal t.tree.obj.type = true)
+    (a : RObj) (ha : a.type = tNUMA) :
+    cnt ident (ident a) ((objsT t.tree).filter (fun o => o.type == tNUMA && !(p.rmExempt && (shrinkG p o).cpuset == 0))) ≤
+      cnt ident (ident a) (objsT (restrict t s flags).1.tree) :=
+  numa_survive_whole t s flags p hp hb hret hty hr a ha
+
+/-- (3) **the BYNODESET mirror, whole call** (level merging included): after a successful restrict by nodeset S the NUMA nodes are
+    EXACTLY the previous NUMA nodes whose os_index is in S, each still with nodeset = complete nodeset = {os_index} -/
+theorem C08_numas_exact_bynodeset (t : Topo) (s : CSet) (flags : Nat) (p : Params) (hp : plan t s flags = some p)
+    (hb : p.byNode = true) (hret : (restrict t s flags).2 = .ok) (hok : okT t.tree = true) (hty : typedT t.tree = true)
+    (hr : isNormal t.tree.obj.type = true) (hsets : numaSetsT t.tree = true) :
+    (∀ x ∈ objsT (restrict t s flags).1.tree, x.type = tNUMA →
+        x.nodeset = osBit x ∧ x.cnodeset = osBit x ∧ s.mem x.osidx.toNat = true) ∧
+    (∀ a : RObj, a.type = tNUMA → cnt ident (ident a) (objsT (restrict t s flags).1.tree) =
+        if s.mem a.osidx.toNat = true then cnt ident (ident a) (objsT t.tree) else 0) :=
+  numas_exact_whole t s flags p hp hb hret hok hty hr hsets
+
+/-- (3) … and a PU disappears from the tree recursion of a restrict by nodeset only if REMOVE_MEMLESS is given and its nodeset is
+    empty afterwards -/
+theorem C08_pu_survive_bynodeset (t : Topo) (p : Params) (hb : p.byNode = true) (t' : Topo) (hc : restrictCore t p = some t')
+    (hty : typedT t.tree = true) (a : RObj) :
+    cnt ident (ident a) ((objsT t.tree).filter (fun o => o.type == tPU && !(p.rmExempt && (shrinkG p o).nodeset == 0))) ≤
+      cnt ident (ident a) (objsT t'.tree) :=
+  pu_survive_core t p hb t' hc hty a
+
+/-! ### A8: level merging and the PUs, the PU leaves, the root (through the level-wide guards of the C code) -/
+
+/-- (3) **hwloc_filter_levels_keep_structure never removes a PU, keeps PUs leaves, never replaces the root and keeps gp_index
+    distinct**: for every typed tree with distinct gp_index, under every filter table that does not put KEEP_STRUCTURE on the PU
+    type and on the root's type (hwloc_topology_set_type_filter refuses anything but KEEP_ALL for PU, NUMA node and Machine).
+    Proved through the level loop: hwloc_compare_levels_structure's pairing (same parent/child, arity 1, no memory children above
+    the PU level) is turned into a node-wise guard for every merged node (`pair_of_same`, using that levels are homogeneous and
+    gp_index is injective), and the merge decision only drops KEEP_STRUCTURE types or a Die level below Packages. -/
+theorem C08_merge_keeps_pus (filters : List Nat) (hPU : filterOf filters tPU ≠ filterKeepStructure) (t : Tree)
+    (hRoot : filterOf filters t.obj.type ≠ filterKeepStructure) (hn : ((objsT t).map (·.gp)).Nodup) (ht : typedT t = true)
+    (hr : isNormal t.obj.type = true) (hl : puLeafT t = true) :
+    puLeafT (keepStructure filters t) = true ∧ (keepStructure filters t).obj = t.obj ∧
+    ((objsT (keepStructure filters t)).map (·.gp)).Nodup ∧
+    (∀ x : RObj, x.type = tPU → (x ∈ objsT (keepStructure filters t) ↔ x ∈ objsT t)) :=
+  ⟨(keepStructure_pu filters hPU t hRoot hn ht hr hl).1, (keepStructure_pu filters hPU t hRoot hn ht hr hl).2.1,
+   (keepStructure_pu filters hPU t hRoot hn ht hr hl).2.2.1, fun x hx => keepStructure_pu_mem filters hPU t hRoot hn ht hr hl x hx⟩
+
+/-- (3) **PUs after a successful restrict by cpuset S, WHOLE call (level merging included)**: every PU of the result still has
+    cpuset = complete cpuset = {os_index} with os_index ∈ S, and the PUs of the result are EXACTLY the previous PUs whose os_index is
+    in S.  Hypotheses: consequences of WF (C08_wf_implies_okT) and `mergeSafe` (distinct gp_index = C01 gp-index-unique, no
+    KEEP_STRUCTURE on PU / root type; evaluated by the driver on every WF BEFORE dump, preserved by every call: C08_restrict_leaf_root) -/
+theorem C08_pus_exact_whole (t : Topo) (s : CSet) (flags : Nat) (p : Params) (hp : plan t s flags = some p) (hb : p.byNode = false)
+    (hret : (restrict t s flags).2 = .ok) (hok : okT t.tree = true) (hty : typedT t.tree = true)
+    (hr : isNormal t.tree.obj.type = true) (hleaf : puLeafT t.tree = true) (hsets : puSetsT t.tree = true) (hs : mergeSafe t) :
+    (∀ x ∈ objsT (restrict t s flags).1.tree, x.type = tPU → x.cpuset = osBit x ∧ x.ccpuset = osBit x ∧ s.mem x.osidx.toNat = true) ∧
+    (∀ a : RObj, a.type = tPU → cnt ident (ident a) (objsT (restrict t s flags).1.tree) =
+        if s.mem a.osidx.toNat = true then cnt ident (ident a) (objsT t.tree) else 0) :=
+  pus_exact_whole t s flags p hp hb hret hok hty hr hleaf hsets hs
+
+/-- (3) … and the BYNODESET mirror for PUs, whole call: a PU disappears only if REMOVE_MEMLESS is given and its nodeset is empty
+    afterwards -/
+theorem C08_pu_survive_bynodeset_whole (t : Topo) (s : CSet) (flags : Nat) (p : Params) (hp : plan t s flags = some p)
+    (hb : p.byNode = true) (hret : (restrict t s flags).2 = .ok) (hty : typedT t.tree = true) (hr : isNormal t.tree.obj.type = true)
+    (hleaf : puLeafT t.tree = true) (hs : mergeSafe t) (a : RObj) (ha : a.type = tPU) :
+    cnt ident (ident a) ((objsT t.tree).filter (fun o => o.type == tPU && !(p.rmExempt && (shrinkG p o).nodeset == 0))) ≤
+      cnt ident (ident a) (objsT (restrict t s flags).1.tree) :=
+  pu_survive_whole t s flags p hp hb hret hty hr hleaf hs a ha
+
+/-- (1)+(4) **the whole call keeps "PUs are leaves", the identity of the root object and `mergeSafe`** — so they hold along any
+    history (C08_repeat_leaf_root) -/
+theorem C08_restrict_leaf_root (t : Topo) (s : CSet) (flags : Nat) (hty : typedT t.tree = true) (hr : isNormal t.tree.obj.type = true)
+    (hl : puLeafT t.tree = true) (hs : mergeSafe t) :
+    puLeafT (restrict t s flags).1.tree = true ∧ ident (restrict t s flags).1.tree.obj = ident t.tree.obj ∧
+    mergeSafe (restrict t s flags).1 :=
+  restrict_leaf_root t s flags hty hr hl hs
+
+theorem C08_repeat_leaf_root (t : Topo) (calls : List (CSet × Nat)) (hty : typedT t.tree = true) (hr : isNormal t.tree.obj.type = true)
+    (hl : puLeafT t.tree = true) (hs : mergeSafe t) :
+    typedT (runCalls t calls).tree = true ∧ isNormal (runCalls t calls).tree.obj.type = true ∧
+    puLeafT (runCalls t calls).tree = true ∧ (runCalls t calls).tree.obj.type = t.tree.obj.type ∧ mergeSafe (runCalls t calls) := by
+  induction calls generalizing t with
+  | nil => exact ⟨hty, hr, hl, rfl, hs⟩
+  | cons c cs ih =>
+    unfold runCalls
+    rw [List.foldl_cons]
+    have h1 := typed_restrict t c.1 c.2 hty hr
+    have h2 := restrict_leaf_root t c.1 c.2 hty hr hl hs
+    have := ih _ h1.1 h1.2 h2.1 h2.2.2
+    refine ⟨this.1, this.2.1, this.2.2.1, ?_, this.2.2.2.2⟩
+    have e : (restrict t c.1 c.2).1.tree.obj.type = t.tree.obj.type := by
+      have := congrArg RObj.type h2.2.1; exact this
+    exact this.2.2.2.1.trans e
+
+/-! ### A8: more WF clauses of the result -/
+
+/-- (4) root-is-machine and numa-exists for the rendering of ANY tree with a Machine root resp. containing a NUMA node -/
+theorem C08_render_top (t : Tree) (h : Hdr) (ex : RObj → Extra) :
+    (t.obj.type = tMACHINE → topClause "root-is-machine" (render t h ex) (mkAux (render t h ex)) = true) ∧
+    ((∃ x ∈ objsT t, x.type = tNUMA) → topClause "numa-exists" (render t h ex) (mkAux (render t h ex)) = true) :=
+  ⟨fun hm => render_root_is_machine t hm h ex, fun hn => render_numa_exists t hn h ex⟩
+
+/-- (4) **children-counts** for the rendering of ANY typed tree: for every object the number of objects of each kind (normal,
+    memory, I/O, Misc) whose parent it is — the four counters that `mkAux` folds over the object list — equals its arity,
+    memory_arity, io_arity, misc_arity -/
+theorem C08_render_children_counts (t : Tree) (ht : typedT t = true) (h : Hdr) (ex : RObj → Extra) (o : Obj)
+    (ho : o ∈ (render t h ex).objs) :
+    objClause "children-counts" (render t h ex) (mkAux (render t h ex)) o = true :=
+  render_children_counts t ht h ex o ho
+
+/-- (4) **levels-cover-objects** for the rendering of ANY typed tree with a normal root: the normal levels (a partition of the
+    normal-reachable = normal-typed objects) and the six special levels (one per non-normal type) together list as many entries as
+    there are objects -/
+theorem C08_render_levels_cover (t : Tree) (ht : typedT t = true) (hr : isNormal t.obj.type = true) (h : Hdr) (ex : RObj → Extra) :
+    topClause "levels-cover-objects" (render t h ex) (mkAux (render t h ex)) = true :=
+  render_levels_cover t ht hr h ex
+
+/-- (4) **type-depth-inverse** for the rendering of ANY tree: the type → depth table is the inverse of the level list -/
+theorem C08_render_type_depth_inverse (t : Tree) (h : Hdr) (ex : RObj → Extra) :
+    topClause "type-depth-inverse" (render t h ex) (mkAux (render t h ex)) = true :=
+  render_type_depth_inverse t h ex
+
+/-- (4) the set clauses **sets-presence** (from `setsPresT`: an object carries sets iff it is neither I/O nor Misc) and
+    **set-in-complete** (from SetsOK) for the rendering of ANY such tree; `setsPresT` holds for the tree of every WF dump and is
+    preserved by the whole restrict model -/
+theorem C08_render_sets (t : Tree) (h : Hdr) (ex : RObj → Extra) (o : Obj) (ho : o ∈ (render t h ex).objs) :
+    (setsPresT t = true → objClause "sets-presence" (render t h ex) (mkAux (render t h ex)) o = true) ∧
+    (okT t = true → objClause "set-in-complete" (render t h ex) (mkAux (render t h ex)) o = true) :=
+  ⟨fun hs => render_sets_presence t hs h ex o ho, fun hok => render_set_in_complete t hok h ex o ho⟩
+
+theorem C08_setsPres (d : Dump) (h : WF d) (t : Tree) (ht : treeOf d = .ok t) (T : Topo) (s : CSet) (flags : Nat) :
+    setsPresT t = true ∧ (setsPresT T.tree = true → setsPresT (restrict T s flags).1.tree = true) :=
+  ⟨treeOf_setsPres h t ht, setsPres_restrict T s flags⟩
+
+/-- (4) **C08_restrict_wf_partial**: for an input whose tree is typed, has PUs as leaves, a Machine root and is `mergeSafe` (all
+    consequences of WF and of the API fact about filters: C08_wf_implies_okT, C08_wf_mergeSafe), the topology
+    after ANY restrict call — with NO hypothesis on the result — satisfies, besides the 7 link clauses of C08_restrict_links and
+    the 9 level clauses of C08_restrict_levels: no-children-where-forbidden and children-counts (every object), root-is-machine,
+    level0-is-root and machine-only-at-root (`machineOnce`: at most one Machine object, C08_wf_mergeSafe).
+    Named _partial because the full `WF (afterDump …)` is not reached: still judged by wfCheck on the real AFTER dump are
+    normal-level-types, pu-level-deepest,
+    numa-exists (reduced to the survival of one NUMA node: C08_restrict_numa_exists) and the set / memory / attribute clauses
+    other than the proved set statements (SetsOK, PU / NUMA singletons, exactness). -/
+theorem C08_restrict_wf_partial (t : Topo) (flagsT : Nat) (s : CSet) (flags : Nat) (ex : RObj → Extra)
+    (ht : typedT t.tree = true) (hm : t.tree.obj.type = tMACHINE) (hl : puLeafT t.tree = true) (hs : mergeSafe t)
+    (h1m : machineOnce t.tree) :
+    (∀ o ∈ (afterDump t flagsT s flags ex).objs,
+      objClause "no-children-where-forbidden" (afterDump t flagsT s flags ex) (mkAux (afterDump t flagsT s flags ex)) o = true ∧
+      objClause "children-counts" (afterDump t flagsT s flags ex) (mkAux (afterDump t flagsT s flags ex)) o = true) ∧
+    topClause "root-is-machine" (afterDump t flagsT s flags ex) (mkAux (afterDump t flagsT s flags ex)) = true ∧
+    topClause "level0-is-root" (afterDump t flagsT s flags ex) (mkAux (afterDump t flagsT s flags ex)) = true ∧
+    topClause "machine-only-at-root" (afterDump t flagsT s flags ex) (mkAux (afterDump t flagsT s flags ex)) = true := by
+  have hr : isNormal t.tree.obj.type = true := by rw [hm]; decide
+  have h1 := typed_restrict t s flags ht hr
+  have h2 := restrict_leaf_root t s flags ht hr hl hs
+  have hm' : (restrict t s flags).1.tree.obj.type = tMACHINE := by
+    have := congrArg RObj.type h2.2.1; exact this.trans hm
+  exact ⟨fun o ho => ⟨C08_render_no_children _ h1.1 h2.1 _ ex o ho, render_children_counts _ h1.1 _ ex o ho⟩,
+    render_root_is_machine _ hm' _ ex,
+    render_level0_is_root _ hm' _ ex, render_machine_only_at_root _ hm' (machineOnce_restrict t s flags h1m) _ ex⟩
+
+/-- (4) numa-exists after a successful restrict, reduced to one protected NUMA node of the input: by cpuset a NUMA node that is
+    not (REMOVE_CPULESS and CPU-less afterwards) — without REMOVE_CPULESS: any NUMA node —, by nodeset a NUMA node whose os_index
+    is in S (such a node exists because the call was not refused; that step needs the nodeset-decomposition clauses and is not proved) -/
+theorem C08_restrict_numa_exists (t : Topo) (flagsT : Nat) (s : CSet) (flags : Nat) (ex : RObj → Extra) (p : Params)
+    (hp : plan t s flags = some p) (hret : (restrict t s flags).2 = .ok) (hok : okT t.tree = true) (hty : typedT t.tree = true)
+    (hr : isNormal t.tree.obj.type = true) (hsets : numaSetsT t.tree = true)
+    (hex : ∃ x ∈ objsT t.tree, x.type = tNUMA ∧
+      (if p.byNode = true then s.mem x.osidx.toNat = true else (p.rmExempt && (shrinkG p x).cpuset == 0) = false)) :
+    topClause "numa-exists" (afterDump t flagsT s flags ex) (mkAux (afterDump t flagsT s flags ex)) = true := by
+  apply render_numa_exists
+  obtain ⟨x, hx, hxt, hcond⟩ := hex
+  have hfind : 0 < cnt ident (ident x) (objsT (restrict t s flags).1.tree) := by
+    cases hb : p.byNode with
+    | true =>
+      rw [hb] at hcond
+      simp only [if_true] at hcond
+      rw [(numas_exact_whole t s flags p hp hb hret hok hty hr hsets).2 x hxt, if_pos hcond]
+      exact (cnt_pos_iff ident (ident x) _).2 ⟨x, hx, rfl⟩
+    | false =>
+      rw [hb] at hcond
+      simp only [Bool.false_eq_true, if_false] at hcond
+      refine Nat.lt_of_lt_of_le ?_ (numa_survive_whole t s flags p hp hb hret hty hr x hxt)
+      refine (cnt_pos_iff ident (ident x) _).2 ⟨x, ?_, rfl⟩
+      rw [List.mem_filter]
+      refine ⟨hx, ?_⟩
+      unfold protNUMA
+      rw [hxt, hcond]
+      rfl
+  obtain ⟨y, hy, e⟩ := (cnt_pos_iff ident (ident x) _).1 hfind
+  exact ⟨y, hy, by have := congrArg RObj.type e; exact this.trans hxt⟩
+
+/-! ### A8: everything from `WF d` alone -/
+
+/-- the 14 object-level and 11 topology-level WF clauses that are PROVED for the topology after any restrict call -/
+def provedObjClauses : List String :=
+  ["id-is-position", "root-or-parent", "parent-kind", "normal-child-slot", "children-array", "special-list-heads",
+   "special-list-links", "no-children-where-forbidden", "children-counts", "depth-by-type", "depth-increases", "in-its-level",
+   "sets-presence", "set-in-complete"]
+def provedTopClauses : List String :=
+  ["nobjs", "levels-listed", "level-entries-valid", "levels-in-tree-order", "normal-levels-nonempty", "depth-le-objects",
+   "level0-is-root", "root-is-machine", "machine-only-at-root", "levels-cover-objects", "type-depth-inverse"]
+
+/-- **C08_restrict_from_wf_partial** — the summary statement, with NO hypothesis besides `WF d` (plus: the engine could rebuild a
+    tree, and the API fact that PU / Machine are not filtered KEEP_STRUCTURE).  For every set and every flag word, with `T` the
+    topology of the dump and `R` the model's result:
+    (a) `R` satisfies again every tree hypothesis (SetsOK, typing, PUs are leaves, Machine root, mergeSafe, one Machine), so the
+        statement applies to the next call too;
+    (b) the rendered result satisfies 14 object-level and 11 topology-level clauses of `WF` (`provedObjClauses`, `provedTopClauses`);
+    (c) after a successful call by cpuset the PUs are exactly the previous PUs with os_index ∈ S, each still a singleton, and a
+        NUMA node disappears only under REMOVE_CPULESS when CPU-less afterwards; by nodeset the mirror statements — all through
+        level merging.
+    `_partial`: the full `WF (afterDump …)` is not reached, see C08_restrict_wf_partial for the list of unproved clauses. -/
+theorem C08_restrict_from_wf_partial (d : Dump) (h : WF d) (t : Tree) (ht : treeOf d = .ok t)
+    (hf1 : filterOf d.filters tPU ≠ filterKeepStructure) (hf2 : filterOf d.filters tMACHINE ≠ filterKeepStructure)
+    (s : CSet) (flags : Nat) (ex : RObj → Extra) :
+    let T : Topo := { tree := t, allowedCpu := d.allowedCpuset.getD 0, allowedNode := d.allowedNodeset.getD 0, filters := d.filters }
+    let R := (restrict T s flags).1
+    let D := afterDump T d.flags s flags ex
+    (okT R.tree = true ∧ typedT R.tree = true ∧ puLeafT R.tree = true ∧ R.tree.obj.type = tMACHINE ∧ mergeSafe R ∧ machineOnce R.tree) ∧
+    (∀ c ∈ provedObjClauses, ∀ o ∈ D.objs, objClause c D (mkAux D) o = true) ∧
+    (∀ c ∈ provedTopClauses, topClause c D (mkAux D) = true) ∧
+    (∀ p, plan T s flags = some p → (restrict T s flags).2 = .ok →
+      (p.byNode = false →
+        (∀ x ∈ objsT R.tree, x.type = tPU → x.cpuset = osBit x ∧ x.ccpuset = osBit x ∧ s.mem x.osidx.toNat = true) ∧
+        (∀ a : RObj, a.type = tPU → cnt ident (ident a) (objsT R.tree) =
+            if s.mem a.osidx.toNat = true then cnt ident (ident a) (objsT t) else 0) ∧
+        (∀ a : RObj, a.type = tNUMA →
+            cnt ident (ident a) ((objsT t).filter (fun o => o.type == tNUMA && !(p.rmExempt && (shrinkG p o).cpuset == 0))) ≤
+              cnt ident (ident a) (objsT R.tree))) ∧
+      (p.byNode = true →
+        (∀ x ∈ objsT R.tree, x.type = tNUMA → x.nodeset = osBit x ∧ x.cnodeset = osBit x ∧ s.mem x.osidx.toNat = true) ∧
+        (∀ a : RObj, a.type = tNUMA → cnt ident (ident a) (objsT R.tree) =
+            if s.mem a.osidx.toNat = true then cnt ident (ident a) (objsT t) else 0) ∧
+        (∀ a : RObj, a.type = tPU →
+            cnt ident (ident a) ((objsT t).filter (fun o => o.type == tPU && !(p.rmExempt && (shrinkG p o).nodeset == 0))) ≤
+              cnt ident (ident a) (objsT R.tree)))) := by
+  intro T R D
+  obtain ⟨hok, hty, hm, hr, hleaf, hpus, hnumas⟩ := wf_treeOf_full h t ht
+  obtain ⟨_, h1m, hsafe⟩ := C08_wf_mergeSafe d h t ht (d.allowedCpuset.getD 0) (d.allowedNodeset.getD 0) hf1 hf2
+  have a1 := C08_restrict_preserves_typing T s flags hok hty hr
+  have a2 := restrict_leaf_root T s flags hty hr hleaf hsafe
+  have hm' : R.tree.obj.type = tMACHINE := by
+    have := congrArg RObj.type a2.2.1; exact this.trans hm
+  have links := fun o ho => C08_restrict_links T d.flags s flags ex hty hr o ho
+  have levels := C08_restrict_levels T d.flags s flags ex hty hr
+  have part := C08_restrict_wf_partial T d.flags s flags ex hty hm hleaf hsafe h1m
+  refine ⟨⟨a1.1, a1.2.1, a2.1, hm', a2.2.2, machineOnce_restrict T s flags h1m⟩, ?_, ?_, ?_⟩
+  · intro c hc o ho
+    simp only [provedObjClauses, List.mem_cons, List.mem_nil_iff, or_false] at hc
+    rcases hc with rfl | rfl | rfl | rfl | rfl | rfl | rfl | rfl | rfl | rfl | rfl | rfl | rfl | rfl
+    · exact (links o ho).1
+    · exact (links o ho).2.1
+    · exact (links o ho).2.2.1
+    · exact (links o ho).2.2.2.1
+    · exact (links o ho).2.2.2.2.1
+    · exact (links o ho).2.2.2.2.2.1
+    · exact (links o ho).2.2.2.2.2.2
+    · exact (part.1 o ho).1
+    · exact (part.1 o ho).2
+    · exact (levels.1 o ho).1
+    · exact (levels.1 o ho).2.1
+    · exact (levels.1 o ho).2.2
+    · exact render_sets_presence _ (setsPres_restrict T s flags (treeOf_setsPres h t ht)) _ ex o ho
+    · exact render_set_in_complete _ a1.1 _ ex o ho
+  · intro c hc
+    simp only [provedTopClauses, List.mem_cons, List.mem_nil_iff, or_false] at hc
+    rcases hc with rfl | rfl | rfl | rfl | rfl | rfl | rfl | rfl | rfl | rfl | rfl
+    · exact levels.2.1
+    · exact levels.2.2.1
+    · exact levels.2.2.2.1
+    · exact levels.2.2.2.2.1
+    · exact levels.2.2.2.2.2.1
+    · exact levels.2.2.2.2.2.2.1
+    · exact part.2.2.1
+    · exact part.2.1
+    · exact part.2.2.2
+    · exact render_levels_cover _ a1.2.1 a1.2.2 _ ex
+    · exact render_type_depth_inverse _ _ ex
+  · intro p hp hret
+    constructor
+    · intro hb
+      have e := pus_exact_whole T s flags p hp hb hret hok hty hr hleaf hpus hsafe
+      exact ⟨e.1, e.2, fun a ha => numa_survive_whole T s flags p hp hb hret hty hr a ha⟩
+    · intro hb
+      have e := numas_exact_whole T s flags p hp hb hret hok hty hr hnumas
+      exact ⟨e.1, e.2, fun a ha => pu_survive_whole T s flags p hp hb hret hty hr hleaf hsafe a ha⟩
+
 /-! ### non-vacuity and the reorder-without-removal case -/
 
 /-- Machine [Core{PU2} (complete {0,2}), Core{PU1} (complete {1,3})] + one NUMA node; PUs 0 and 3 are offline -/
@@ -493,5 +860,39 @@ theorem C08_reorder_without_removal_reachable :
       (objsL (restrictT p t.tree).kept).length = (objsT t.tree).length ∧
       (objsL (restrictT p t.tree).kept).map (·.gp) ≠ (objsL (restrictTW id p t.tree).kept).map (·.gp) :=
   ⟨demo, ⟨⟨6, true⟩, CSet.empty, false, false, false, false⟩, by decide +kernel⟩
+
+/-- non-vacuity of C08_wf_implies_okT / C08_wf_restrict_typing: the rendering of `demo` (with the local memory of the NUMA node as
+    carried field) is a well-formed dump and `treeOf` rebuilds a tree from it -/
+def demoDump : Dump := render demo.tree ⟨0, List.replicate 20 0, some 6, some 1⟩ (fun _ => {})
+example : WF demoDump := by decide +kernel
+example : filterOf demoDump.filters tPU ≠ filterKeepStructure ∧ filterOf demoDump.filters tMACHINE ≠ filterKeepStructure := by decide +kernel
+example : (match treeOf demoDump with | .ok t => (objsT t).map (·.gp) == [1, 2, 3, 9, 4, 5, 6] | .error _ => false) = true := by
+  decide +kernel
+example : okT demo.tree = true ∧ typedT demo.tree = true ∧ isNormal demo.tree.obj.type = true := by decide +kernel
+
+/-- non-vacuity of C08_pus_exact / C08_numa_survive (demo, restrict to PU 1) and of C08_numas_exact_bynodeset (demoMerge, NUMA 0) -/
+example : plan demo ⟨2, false⟩ flagAdaptMisc = some ⟨⟨2, true⟩, CSet.empty, false, false, false, true⟩ ∧
+    (restrictCore demo ⟨⟨2, true⟩, CSet.empty, false, false, false, true⟩).isSome = true ∧
+    okT demo.tree = true ∧ typedT demo.tree = true ∧ puLeafT demo.tree = true ∧ puSetsT demo.tree = true ∧
+    ((objsT (restrict demo ⟨2, false⟩ flagAdaptMisc).1.tree).filter (fun o => o.type == tPU)).map (·.osidx) = [1] := by decide +kernel
+example : (plan demoMerge ⟨1, false⟩ (flagByNodeset ||| flagRemoveMemless)).isSome = true ∧
+    okT demoMerge.tree = true ∧ typedT demoMerge.tree = true ∧ isNormal demoMerge.tree.obj.type = true ∧
+    numaSetsT demoMerge.tree = true ∧
+    ((objsT (restrict demoMerge ⟨1, false⟩ (flagByNodeset ||| flagRemoveMemless)).1.tree).filter (fun o => o.type == tNUMA)).map (·.osidx) = [0] := by
+  decide +kernel
+
+/-- non-vacuity of the `mergeSafe` theorems: demo and demoMerge are mergeSafe; on demoMerge the call merges the Package level away
+    (C08_merge_keeps_pus at work: PU 0 survives under the L2 cache that replaced Package 0) -/
+example : mergeSafe demo ∧ mergeSafe demoMerge ∧ machineOnce demoMerge.tree ∧ puLeafT demoMerge.tree = true ∧ demoMerge.tree.obj.type = tMACHINE := by decide +kernel
+example : ((objsT (restrict demoMerge ⟨1, false⟩ (flagByNodeset ||| flagRemoveMemless)).1.tree).filter (fun o => o.type == tPU)).map (·.osidx) = [0] ∧
+    (objsT (restrict demoMerge ⟨1, false⟩ (flagByNodeset ||| flagRemoveMemless)).1.tree).length + 7 = (objsT demoMerge.tree).length := by
+  decide +kernel
+
+/-- non-vacuity of C08_restrict_from_wf_partial: all its hypotheses hold for `demoDump` (WF and the filter facts: above) -/
+example : ∃ t, treeOf demoDump = .ok t := by
+  have h : (match treeOf demoDump with | .ok _ => true | .error _ => false) = true := by decide +kernel
+  cases hh : treeOf demoDump with
+  | ok t => exact ⟨t, rfl⟩
+  | error e => rw [hh] at h; cases h
 
 end Hw.Props.C08
